@@ -1124,4 +1124,44 @@ pub fn run(ctx: &mut Ctx) {
         }
         ctx.shape(&(format!("{:?}", enc), format!("{:?}", mac)));
     });
+    // the derived sizes are functions of (enc, enc_size, mac) alone: the same synthetic suite under every one of
+    // the 65536 ids (GREASE, SCSV, registered, unregistered) and several kx / au / mode / prf / name fields
+    ctx.floor("synthetic.ids", 65536 * ENC_ALL.len() as u64);
+    ctx.sweep("synthetic-all-ids", ENC_ALL.len() as u64 * 16, |ctx, i| {
+        let enc = ENC_ALL[i as usize % ENC_ALL.len()];
+        let chunk = i / ENC_ALL.len() as u64;
+        let mac = MAC_ALL[(i as usize) % MAC_ALL.len()];
+        let bits = [128u16, 256, 168, 64][(i as usize / 3) % 4];
+        let base = TlsCipherSuite { name: "SYNTHETIC", id: TlsCipherSuiteID(0), kx: TlsCipherKx::Null, au: TlsCipherAu::Null, enc, enc_mode: TlsCipherEncMode::Null, enc_size: bits, mac, mac_size: 0, prf: TlsPRF::Default };
+        let want = (base.enc_key_size(), base.enc_block_size(), base.mac_length());
+        check_derived(ctx, &base, false);
+        for id in (chunk * 4096)..((chunk + 1) * 4096) {
+            let id = id as u16;
+            let reg = TlsCipherSuite::from_id(id);
+            let s = TlsCipherSuite {
+                name: reg.map(|r| r.name).unwrap_or("TLS_GREASE_WITH_SYNTHETIC"),
+                id: TlsCipherSuiteID(id),
+                kx: reg.map(|r| r.kx.clone()).unwrap_or(TlsCipherKx::Tls13),
+                au: reg.map(|r| r.au.clone()).unwrap_or(TlsCipherAu::Rsa),
+                enc: base.enc.clone(),
+                enc_mode: reg.map(|r| r.enc_mode.clone()).unwrap_or(TlsCipherEncMode::Gcm),
+                enc_size: bits,
+                mac: base.mac.clone(),
+                mac_size: if id % 2 == 0 { 0 } else { 160 },
+                prf: reg.map(|r| r.prf.clone()).unwrap_or(TlsPRF::Default),
+            };
+            let got = (s.enc_key_size(), s.enc_block_size(), s.mac_length());
+            if got != want {
+                ctx.violation(
+                    format!("c12:derived:depends-on-fields-other-than-enc-size-mac:{:?}", enc),
+                    json!({"id": format!("0x{:04x}", id), "enc": format!("{:?}", enc), "mac": format!("{:?}", mac), "enc_size_bits": bits,
+                           "(key bytes, block size, mac length) with id 0 and null kx/au/mode": format!("{:?}", want), "with this id / kx / au / mode / prf / name": format!("{:?}", got)}),
+                );
+                break;
+            }
+        }
+        ctx.evals(4096 * 3);
+        ctx.add("synthetic.ids", 4096);
+        ctx.shape(&("synthetic-ids", format!("{:?}", enc), chunk));
+    });
 }
